@@ -356,8 +356,9 @@ def rule_m6(F):
         r.missing(fn)
         return r
 
-    def analyse(b, fn, la, lb, helper):
-        """the element loops of body b over the lists named la / lb (parameters of b); returns how many were found"""
+    def analyse(b, fn, la, lb, helper, outer_gated=False):
+        """the element loops of body b over the lists named la / lb (parameters of b); returns how many were found.  outer_gated:
+        every call of this helper with two different lists lies behind the caller's comparison of their lengths"""
         defs = mir.Defs(b)
         dom = mir.dominators(b)
 
@@ -415,8 +416,8 @@ def rule_m6(F):
                 r.inst("element loop over one list (self comparison)", {"loop_header_bb": h, "roots": sorted(roots_)})
                 continue
             n += 1
-            ok = any(g in dom[h] for g in gates)
-            r.inst("element loop #%d" % n, {"loop_header_bb": h, "length_gates": gates, "gated": ok})
+            ok = any(g in dom[h] for g in gates) or outer_gated
+            r.inst("element loop #%d" % n, {"loop_header_bb": h, "length_gates": gates, "gated": ok, "gate_in_caller": outer_gated})
             if not ok:
                 r.bad(fn, "element loop not behind a length comparison", relfile(b.file), b.blocks[h]["term"].get("line", b.line),
                       "the elements are compared without a preceding comparison of the two lengths %s: a list that is a proper prefix of the other compares equal (and `==` is no longer symmetric)"
@@ -442,15 +443,18 @@ def rule_m6(F):
                     r.inst("element closure over one list (self comparison)", {"adaptor_bb": cb_, "roots": sorted(roots_)})
                     continue
                 n += 1
-                ok = any(g in dom[cb_] for g in gates)
-                r.inst("element loop #%d (closure given to %s)" % (n, hir.last(mir.callee_def(t) or "")), {"adaptor_bb": cb_, "length_gates": gates, "gated": ok})
+                ok = any(g in dom[cb_] for g in gates) or outer_gated
+                r.inst("element loop #%d (closure given to %s)" % (n, hir.last(mir.callee_def(t) or "")), {"adaptor_bb": cb_, "length_gates": gates, "gated": ok, "gate_in_caller": outer_gated})
                 if not ok:
                     r.bad(fn, "element loop not behind a length comparison", relfile(b.file), t.get("line", b.line),
                           "the elements are compared without a preceding comparison of the two lengths %s: a list that is a proper prefix of the other compares equal (and `==` is no longer symmetric)"
                           % ("read under the locks that the loop holds" if stale else ""))
+        LAST["gates"], LAST["dom"], LAST["D"] = gates, dom, D
         return n
 
+    LAST = {}
     n = analyse(b0, fn, "arg1", "arg2", False)
+    gates0, dom0, D0 = LAST.get("gates") or [], LAST.get("dom") or {}, LAST.get("D")
     if n == 0:
         # the comparison proper lives in a helper on the locked lists: `this.elements_eq(&other)` - the helper is handed both lists
         # through the guards this function holds, and the helper's own loop is behind its own comparison of both lengths
@@ -472,7 +476,15 @@ def rule_m6(F):
             if not all(guarded):
                 continue
             done.add(w.path)
-            n += analyse(w, w.path, "arg%d" % lists[0], "arg%d" % lists[1], True)
+            # the calls of this helper with two different lists: behind the caller's own comparison of both lengths?
+            two = []
+            for bj, tj in mir.calls(b0):
+                if (mir.callee(tj) or "") != w.path or len(tj["args"]) < max(lists):
+                    continue
+                ra, rb = D0(tj["args"][lists[0] - 1]), D0(tj["args"][lists[1] - 1])
+                if ra != rb:
+                    two.append(any(g in dom0[bj] for g in gates0))
+            n += analyse(w, w.path, "arg%d" % lists[0], "arg%d" % lists[1], True, outer_gated=bool(two) and all(two))
     if n == 0:
         r.missing("element comparison loop in " + fn)
     return r
